@@ -572,6 +572,12 @@ func (tt *TrueTypeFont) parseCmapFormat4(r *bytes.Reader) error {
 	// For simplicity, we'll just store a basic mapping
 	// Full implementation would handle idDelta and idRangeOffset
 	for i := range startCode {
+		// Once every 16-bit code is mapped further segments add nothing; a table
+		// that repeats the whole range in each of its 32767 segments would
+		// otherwise cost two thousand million map writes.
+		if len(tt.cmapTable.encoding) >= 1<<16 {
+			break
+		}
 		// Use uint32 for the loop counter to avoid infinite loop when endCode is 0xFFFF
 		// (uint16 would wrap from 0xFFFF to 0 on increment)
 		for c := uint32(startCode[i]); c <= uint32(endCode[i]); c++ {
